@@ -169,7 +169,7 @@ def _has_spec(eng, node):
 
 
 def run_seq(eng, node, st, fid, seq):
-    if seq.known_len is not None and seq.known_len <= 8:
+    if seq.known_len is not None and seq.known_len <= 8 and not getattr(seq, "effect", None):
         return unroll(eng, node, st, fid, seq)
     ordn = loop_ordinal(eng, node)
     spec = eng.cur_contract.loops.get(ordn) if eng.cur_contract is not None and ordn is not None else None
@@ -222,16 +222,31 @@ def invariant_for(eng, node, st, fid, seq, spec, ordn):
     i = fresh("it", z3.IntSort())
     sh = sh.assume(0 <= i, i < n, n >= 0)
     sh = sh.assume(spec.inv(spec_env(eng, sh), LoopCtx(i, n, sh, seq, fid, st)))
-    if eng.feasible(sh):
-        sb = bind_target(eng, node.target, sh, fid, seq.get(sh, i))
-        for k2, s2, v2 in eng.exec_block(node.body, sb, fid):
-            if k2 in ("next", "continue"):
-                eng.oblige_split(s2, spec.inv(spec_env(eng, s2), LoopCtx(i + 1, n, s2, seq, fid, st)),
-                                 f"loop#{ordn}/inv-preserve", kind="loop")
-            elif k2 == "break":
-                res.append(("next", s2, None))
-            else:
-                res.append((k2, s2, v2))
+    if not eng.feasible(sh):
+        # vacuity guard: under the invariant no iteration can happen although the sequence is symbolic - a contradictory invariant
+        # would make every later obligation trivially true
+        raise Unsupported(f"loop #{ordn} at line {node.lineno}: no iteration is possible under the invariant (vacuous invariant?)")
+    if True:
+        # the element: a pure read of the sequence, or (map(f, seq): lazy) the outcomes of calling f on it right now
+        elems = seq.effect(eng, sh, i) if getattr(seq, "effect", None) else [("ok", sh, seq.get(sh, i))]
+        n_ok = 0
+        for ke, s_e, v_e in elems:
+            n_ok += ke == "ok"
+        if getattr(seq, "effect", None) and n_ok == 0:
+            raise Unsupported(f"loop #{ordn} at line {node.lineno}: the call producing the elements has no normal outcome")
+        for ke, s_e, v_e in elems:
+            if ke != "ok":
+                res.append((ke, s_e, v_e))
+                continue
+            sb = bind_target(eng, node.target, s_e, fid, v_e)
+            for k2, s2, v2 in eng.exec_block(node.body, sb, fid):
+                if k2 in ("next", "continue"):
+                    eng.oblige_split(s2, spec.inv(spec_env(eng, s2), LoopCtx(i + 1, n, s2, seq, fid, st)),
+                                     f"loop#{ordn}/inv-preserve", kind="loop")
+                elif k2 == "break":
+                    res.append(("next", s2, None))
+                else:
+                    res.append((k2, s2, v2))
     # exhausted
     se = havoc_vars(havoc_locations(eng, st, locs), fid, names)
     se = se.assume(n >= 0, spec.inv(spec_env(eng, se), LoopCtx(n, n, se, seq, fid, st)))
